@@ -21,6 +21,9 @@ built directly from the accumulated data and the same hyper-parameters:
   history/probe/<Acq>/<method>/differs-from-fresh-optimiser-on-the-same-data     the acquisition depends on the history
   history/probe/<Acq>/opt_func_gradient/gradient-differs-from-fresh-optimiser-on-the-same-data
   history/probe/<Acq>/optvalue-differs-from-opt_func                             value part of opt_func_gradient != opt_func
+The search bounds are handed over in every container form (list of tuples, list of lists, float (d,2) ndarray, int (d,2) ndarray); after every call
+  history/caller-array-modified/ctor-bounds/given-as:<form>    the caller's bounds object is no longer what was passed (bytes / shape / dtype)
+  history/propose-<route>/outside-bounds                       a proposal outside the ORIGINAL box (kept by the harness, not read back from the objects)
 """
 import copy
 import itertools
@@ -868,7 +871,11 @@ def run(ck):
         "Part D: cartesian product d{1,2} x n{3,6} x design x hyper-parameter pattern{unit,aniso,short} x noise x mean{Constant,Linear} x 3 query points x "
         "acquisition{EI x z-lattice, UCB kappa{2,0}, MaxVariance}; a tag is one (acquisition, GP configuration, query, z) compared with all oracles. "
         "Part C: every sequence of length <= 3 over {propose(bfgs), propose(diffev), add_evaluation} (40 histories per configuration, each rebuilt and replayed "
-        "on fresh objects) x d{1,2} x acquisition x start script over {0,1/2,1-} x y_err{no,yes} x (bounds layout, input array form) - the quick tier takes a seed-rotated "
+        "on fresh objects, so three proposals in a row by either route and every mixture are included) x d{1,2} x acquisition x start script over {0,1/2,1-} x y_err{no,yes} x "
+        "(bounds layout, input array form) x container form of the search bounds {list of tuples, list of lists, float ndarray (d,2), int64 ndarray (d,2) holding an integer box} - "
+        "the bounds form is a Latin-square slice of the product (rotated with acquisition, configuration and seed so that every form meets every d, acquisition and optimiser route); "
+        "after EVERY call the caller's bounds object must be identical (bytes, shape, dtype; deep equality for lists) to what was passed and every proposal must lie in the ORIGINAL box "
+        "(kept separately by the harness) - the quick tier takes a seed-rotated "
         "slice of that configuration product (15 configurations), the thorough tier all of it (320); states = distinct (data, pending proposal) reached, "
         "transitions = calls whose post-state was checked. In EVERY post-state (constructor and after every propose/add of every history) the optimiser's acquisition is "
         "evaluated (__call__, opt_func, opt_func_gradient, in an order rotated by probe/history position, inputs alternately (1,d) and (d,)) at the probe menu "
@@ -883,4 +890,6 @@ def run(ck):
               "GpOptimiser given the accumulated data (x, y, y_err) and the hyper-parameters the optimiser's current model reports (GpRegressor.hyperpars) - the hyper-parameter SELECTION after a re-fit is not "
               "compared, only what the acquisition computes from the selected model; the value part of opt_func_gradient must equal opt_func at every probe to the same tolerance; probing is assumed free of side effects "
               "on the unchanged library (the scripted start counter is restored after building the reference object)")
+    ck.assume("search bounds: a (d,2) ndarray (float or integer) and a list of [lower, upper] lists are taken to be legal forms of the documented 'iterable of (lower_bound, upper_bound)'; "
+              "the integer form uses the integer box [-1 or 1, 4] (x [-1, 4]) instead of [-0.25 or 0.5, 3.25]; one container form per configuration (not the full product with the other axes)")
     ck.assume("add_evaluation adds the pending proposal (the object propose_evaluation returned) when there is one, else the next point of a fixed menu in rotating input forms (float, (d,), (1,d), 0-d); y from a fixed deterministic objective")
